@@ -29,12 +29,14 @@ def count_fields(buf, hdr):
 def bases(quick):
     bs = []
     T = mwrap.T
-    val = (b"(" + b"\x03\x00\x00\x00" + b"i\x07\x00\x00\x00" + b"N" + b"s\x02\x00\x00\x00ab")
-    vtok = [T("tuple", 3), T("int", 0, [7]), T("none"), None]
+    val = (b"(" + b"\x04\x00\x00\x00" + b"i\x07\x00\x00\x00" + b"N" + b"s\x02\x00\x00\x00ab" +
+           b"l\x03\x00\x00\x00\x00\x00\x00\x00\x02\x00")                     # ... and 2**31 as a digit array (its count field is a fault target)
+    vtok = [T("tuple", 4), T("int", 0, [7]), T("none"), None, None]
     for ver, magic, hdr in (([2, 7], 62211, 8), ([3, 3], 3230, 12), ([3, 8], 3413, 16), ([3, 12], 3531, 16)):
         py3 = ver[0] >= 3
         vt = list(vtok)
         vt[3] = T("bytes" if py3 else "str8", 2, b"ab")
+        vt[4] = T("int" if py3 else "long", 0, [0, 0, 2])
         payload, _ = mwrap.wrap(ver, magic, val, vt, rich=True)
         header = bytes(bytearray([magic & 255, magic >> 8, 13, 10])) + b"\x00" * (hdr - 4)
         buf = header + payload
@@ -75,6 +77,8 @@ def run(tier, rep):
                        ("deep-tuples", bytes(bytearray([85, 13, 13, 10] + [0] * 12)) + b"(\x01\x00\x00\x00" * 3000 + b"N"),
                        ("huge-count", bytes(bytearray([85, 13, 13, 10] + [0] * 12)) + b"(\xff\xff\xff\x7f" + b"N" * 60),
                        ("huge-string", bytes(bytearray([85, 13, 13, 10] + [0] * 12)) + b"s\xff\xff\xff\x7f" + b"x" * 60),
+                       ("huge-long", bytes(bytearray([85, 13, 13, 10] + [0] * 12)) + b"l\xff\xff\xff\x7f" + b"\x01\x00" * 30),
+                       ("huge-long-py2", bytes(bytearray([3, 243, 13, 10] + [0] * 4)) + b"l\x00\x00\x00\x40" + b"\x01\x00" * 30),
                        ("ref-loop", bytes(bytearray([85, 13, 13, 10] + [0] * 12)) + b"\xdb\x01\x00\x00\x00r\x00\x00\x00\x00" + b"\x00" * 50)):
         faulty.append({"id": "hostile:" + name, "base": "hostile", "kind": "hostile", "pos": -1, "val": [], "bytes": list(bytearray(data))})
     # header sweep: every magic xdis knows (and its neighbours) with well-formed and ill-formed bytes 3-4, followed by junk
